@@ -34,11 +34,46 @@ Definition case_agrees (k : dconsts) (c : lru_case) : bool :=
 Definition case_monitor (k : dconsts) (c : lru_case) : bool :=
   forallb (fun o => Z.leb (Z.of_nat (lo_resident o)) (eff_size k (lc_size c))) (lc_ops c).
 
+(** Second monitor, the "least recently used" clause, stated on the history of
+    operations alone (no model state): an access finds its key resident iff the
+    key is among the resident keys of its shard, where the resident keys are
+    defined by the history alone: an access makes its key the most recent one
+    of its shard and, when the shard then has more than [cap] keys, the least
+    recently used one is forgotten; a removal forgets its key.  [rec] = the
+    resident keys by recency, most recent first.
+    Whether the implementation found the key resident is visible in the entry
+    identity it returns: a fresh identity (= number of entries created so far)
+    means the key was not resident. *)
+Definition shard_of (z : nat) (k : ckey) : N := ckey_hash k mod N.of_nat z.
+Definition forget (k : ckey) (rec : list (N * ckey)) : list (N * ckey) :=
+  filter (fun x => negb (ckey_eqb (snd x) k)) rec.
+
+Fixpoint mon_lru (z cap : nat) (rec : list (N * ckey)) (next : N) (ops : list lru_op) : bool :=
+  match ops with
+  | [] => true
+  | o :: r =>
+      let k := lo_key o in
+      if lo_get o then
+        let sh := shard_of z k in
+        let expected_resident := existsb (fun x => ckey_eqb (snd x) k) rec in
+        let observed_resident := negb (N.eqb (lo_id o) next) in
+        let mine := (sh, k) :: filter (fun x => N.eqb (fst x) sh) (forget k rec) in
+        let others := filter (fun x => negb (N.eqb (fst x) sh)) rec in
+        let rec1 := (if Nat.eqb cap 0 then mine else firstn cap mine) ++ others in
+        Bool.eqb expected_resident observed_resident
+        && mon_lru z cap rec1 (if observed_resident then next else N.succ next) r
+      else mon_lru z cap (forget k rec) next r
+  end.
+
+Definition case_monitor_lru (k : dconsts) (c : lru_case) : bool :=
+  let z := zone_count k (lc_size c) in
+  mon_lru z (Z.to_nat (eff_size k (lc_size c) / Z.of_nat z)) [] 0%N (lc_ops c).
+
 Fixpoint failing {A} (f : A -> bool) (i : nat) (l : list A) : list nat :=
   match l with
   | [] => []
   | x :: r => if f x then failing f (S i) r else i :: failing f (S i) r
   end.
 
-Definition check_cases (k : dconsts) (cs : list lru_case) : list nat * list nat :=
-  (failing (case_agrees k) 0 cs, failing (case_monitor k) 0 cs).
+Definition check_cases (k : dconsts) (cs : list lru_case) : list nat * list nat * list nat :=
+  (failing (case_agrees k) 0 cs, failing (case_monitor k) 0 cs, failing (case_monitor_lru k) 0 cs).
